@@ -280,6 +280,9 @@ class LoopCfg:
     init_now: int = 0
     init_budget: list[int] = field(default_factory=list)
     init_breaker: dict | None = None         # state, opened_at, probe, failures, class_failures
+    # C15's twin semantics (`World.silent`): an Exception raised by an observability hook (on_metric,
+    # on_log, before_sleep) is turned into a normal return of the same duration by the harness's hook
+    silent_hooks: bool = False
 
     def has(self, f: str) -> bool:
         return f in self.flags
@@ -333,6 +336,8 @@ class LoopCfg:
                     k, _, v = tok.partition("=")
                     if k == "now":
                         c.init_now = int(v)
+                    elif k == "silent":
+                        c.silent_hooks = v == "1"
                     elif k == "budget":
                         c.init_budget = [] if v == "-" else [int(x) for x in v.split(",")]
                     elif k == "breaker":
@@ -377,7 +382,7 @@ class LoopCfg:
             fs = ",".join(str(x) for x in ib.get("failures", [])) or "-"
             cf = ",".join(f"{k}:{t}" for k, ts in sorted(ib.get("class_failures", {}).items()) for t in ts) or "-"
             brk = f"{ib['state']};{opt(ib.get('opened_at'))};{1 if ib.get('probe') else 0};{fs};{cf}"
-        return f"init now={self.init_now} budget={bud} breaker={brk}"
+        return f"init now={self.init_now} budget={bud} breaker={brk}" + (" silent=1" if self.silent_hooks else "")
 
 
 # --------------------------------------------------------------------------- the environment
@@ -432,8 +437,11 @@ class Env:
         if extra:
             info.update(extra)
         a: Ans = self.oracle.choose(kind, info)
-        self.exchanges.append((self.step, req, a.toks()))
         self.answers.append(a.toks())
+        if (self.cfg.silent_hooks and kind in ("metric", "log", "beforeSleep") and a.kind == "raise"
+                and a.a.split(":")[0] in ("ordinary", "abort", "exhausted", "circuitOpen")):
+            a = Ans("unit", dur=a.dur)          # cf. Ans.silenced in Model/World.lean
+        self.exchanges.append((self.step, req, a.toks()))
         self.clock.advance(a.dur)
         return a
 
